@@ -630,6 +630,40 @@ def rule_K(run, prog, m):
                    message="get_TwoDSpectrum stores the data of the requested view with set_data(...) without the type: the "
                            "spectrum handed out for the rephasing or non-rephasing view says it is the total signal",
                    loc=f.loc(c), sample={"call": norm(c)[:80]})
+    # the container of views says which view it holds: where a method selects the view of every spectrum by a parameter and
+    # collects them in a container whose constructor takes the type, the parameter reaches the constructor
+    from ..loader import ClassInfo
+    cont = prog.cls("quantarhei.spectroscopy.twodcontainer.TwoDResponseContainer")
+    g = cont.methods["get_TwoDSpectrumContainer"]
+    prog.consulted.add(g.relpath)
+    gpar = [a.arg for a in g.node.args.args[1:]]
+    sel = [c_ for c_ in ast.walk(g.node) if isinstance(c_, ast.Call) and call_name(c_) == "get_TwoDSpectrum"
+           and any(k.arg == "dtype" and isinstance(k.value, ast.Name) and k.value.id in gpar for k in c_.keywords)]
+    if not sel:
+        raise AnalysisError("get_TwoDSpectrumContainer: the view is no longer selected by a parameter")
+    tpar = [k.value.id for k in sel[0].keywords if k.arg == "dtype"][0]
+    made = []
+    for c_ in ast.walk(g.node):
+        if isinstance(c_, ast.Call) and isinstance(c_.func, ast.Name):
+            try:
+                tgt = prog.resolve_name(g.module, c_.func.id, g)
+            except Exception:
+                tgt = None
+            if isinstance(tgt, ClassInfo):
+                init = prog.find_method(tgt, "__init__")
+                ps = [a.arg for a in init.node.args.args[1:]] if init is not None else []
+                if "dtype" in ps:
+                    made.append((c_, ps))
+    if not made:
+        raise AnalysisError("get_TwoDSpectrumContainer: no container with a type is created")
+    for c_, ps in made:
+        given = {k.arg: norm(k.value) for k in c_.keywords if k.arg}
+        for p_, a_ in zip(ps, c_.args):
+            given.setdefault(p_, norm(a_))
+        run.obligation(rid, g.short, given.get("dtype") == tpar, key="container-type-forwarded",
+                       message="get_TwoDSpectrumContainer collects the `%s` view of every spectrum in `%s`, a container created "
+                               "without that type: it says it holds the total signal, its fft(dtype=%s) is refused and what it "
+                               "hands out is labelled total" % (tpar, norm(c_)[:50], tpar), loc=g.loc(c_))
     # flag discipline
     base = prog.cls(T2 + ".TwoDSpectrumBase")
     n = 0
